@@ -36,21 +36,25 @@ type c06Pair struct {
 	refType []string
 }
 
-func runC06(c *Ctx) {
-	R := c.R
-	R.Rule("equiv", "each function of container/list and container/ring has a counterpart in lists that is equal in AST normal form (layer 1) or in canonical path summaries (layer 2)", 32)
-	R.Rule("struct-equiv", "the struct declarations Element, List, Ring equal the reference's modulo generic erasure", 3)
-	R.Rule("api-surface", "the fork's List/Element/Ring have exactly the reference's functions and methods (no function without a validated reference)", 2)
+func runC06(c *Ctx) { runC06On(c, "", []string{"container/list", "container/ring"}, 32) }
 
-	ref, err := Load(LoadOpts{Dir: c.Repo, Patterns: []string{"container/list", "container/ring"}, MinPkgs: 2})
+// runC06On validates the fork against the given reference packages; C16 re-uses the container/list half (prefix
+// "list/"), on which Queue rests.
+func runC06On(c *Ctx, pfx string, patterns []string, minPairs int) {
+	R := c.R
+	R.Rule(pfx+"equiv", "each function of container/list and container/ring has a counterpart in lists that is equal in AST normal form (layer 1) or in canonical path summaries (layer 2)", minPairs)
+	R.Rule(pfx+"struct-equiv", "the struct declarations Element, List, Ring equal the reference's modulo generic erasure", len(patterns)+1)
+	R.Rule(pfx+"api-surface", "the fork's List/Element/Ring have exactly the reference's functions and methods (no function without a validated reference)", 2)
+
+	ref, err := Load(LoadOpts{Dir: c.Repo, Patterns: patterns, MinPkgs: len(patterns)})
 	if err != nil {
-		R.Unproven("equiv", "(reference)", "load", "", "cannot load the reference packages from GOROOT: "+err.Error())
+		R.Unproven(pfx+"equiv", "(reference)", "load", "", "cannot load the reference packages from GOROOT: "+err.Error())
 		return
 	}
 	refAn := NewAnalysis(ref)
 	fork := c.P.PkgByRel("lists")
 	if fork == nil {
-		R.Unproven("equiv", "lists", "package", "", "package lists not found")
+		R.Unproven(pfx+"equiv", "lists", "package", "", "package lists not found")
 		return
 	}
 	// index fork declarations
@@ -73,11 +77,11 @@ func runC06(c *Ctx) {
 			refTypeNames[name] = true
 			fts, ok := forkTypes[name]
 			if !ok {
-				R.Refuted("struct-equiv", "lists."+name, "decl", "", "type "+name+" of "+rp.PkgPath+" has no counterpart in lists")
+				R.Refuted(pfx+"struct-equiv", "lists."+name, "decl", "", "type "+name+" of "+rp.PkgPath+" has no counterpart in lists")
 				continue
 			}
 			a, b := normaliseType(fork, fts), normaliseType(rp, ts)
-			R.Decide(a == b, "struct-equiv", "lists."+name, "decl", c.P.Pos(fts.Pos()),
+			R.Decide(a == b, pfx+"struct-equiv", "lists."+name, "decl", c.P.Pos(fts.Pos()),
 				"struct declaration equals "+rp.PkgPath+"."+name+" modulo erasure",
 				"struct declaration differs from "+rp.PkgPath+"."+name, "fork: "+a, "reference: "+b)
 		}
@@ -96,7 +100,7 @@ func runC06(c *Ctx) {
 			ff, ok := forkFuncs[fname]
 			construct := "lists." + fname
 			if !ok {
-				R.Refuted("equiv", construct, "pair", "", fmt.Sprintf("%s.%s has no counterpart in package lists", rp.PkgPath, rname))
+				R.Refuted(pfx+"equiv", construct, "pair", "", fmt.Sprintf("%s.%s has no counterpart in package lists", rp.PkgPath, rname))
 				continue
 			}
 			matchedFork[fname] = true
@@ -108,7 +112,7 @@ func runC06(c *Ctx) {
 			b := normaliseFunc(rp, rf.Decl, nil)
 			if a == b {
 				layer1++
-				o := R.Held("equiv", construct, "pair", c.P.Pos(ff.Decl.Pos()), fmt.Sprintf("equal to %s.%s at layer 1 (AST normal form)", rp.PkgPath, rname))
+				o := R.Held(pfx+"equiv", construct, "pair", c.P.Pos(ff.Decl.Pos()), fmt.Sprintf("equal to %s.%s at layer 1 (AST normal form)", rp.PkgPath, rname))
 				if len(samples) < 3 {
 					samples = append(samples, map[string]string{"pair": construct + " ~ " + rp.PkgPath + "." + rname, "layer": "1", "normal_form": a})
 				}
@@ -119,7 +123,7 @@ func runC06(c *Ctx) {
 			pa, ua := canonPaths(c.An, ff.SSA, rename)
 			pb, ub := canonPaths(refAn, rf.SSA, nil)
 			if ua != "" || ub != "" {
-				R.Unproven("equiv", construct, "pair", c.P.Pos(ff.Decl.Pos()), "differs at layer 1 and cannot be summarised at layer 2: "+ua+ub, "fork: "+a, "reference: "+b)
+				R.Unproven(pfx+"equiv", construct, "pair", c.P.Pos(ff.Decl.Pos()), "differs at layer 1 and cannot be summarised at layer 2: "+ua+ub, "fork: "+a, "reference: "+b)
 				continue
 			}
 			// closures must agree as well
@@ -135,14 +139,14 @@ func runC06(c *Ctx) {
 			}
 			if same {
 				layer2++
-				R.Held("equiv", construct, "pair", c.P.Pos(ff.Decl.Pos()), fmt.Sprintf("differs textually from %s.%s but has the same %d canonical path summaries (layer 2)", rp.PkgPath, rname, len(pa)))
+				R.Held(pfx+"equiv", construct, "pair", c.P.Pos(ff.Decl.Pos()), fmt.Sprintf("differs textually from %s.%s but has the same %d canonical path summaries (layer 2)", rp.PkgPath, rname, len(pa)))
 				samples = append(samples, map[string]interface{}{"pair": construct, "layer": "2", "paths": pa})
 				continue
 			}
 			facts := []string{"fork normal form: " + a, "reference normal form: " + b}
 			facts = append(facts, diffSets("fork-only path", pa, pb)...)
 			facts = append(facts, diffSets("reference-only path", pb, pa)...)
-			R.Unproven("equiv", construct, "pair", c.P.Pos(ff.Decl.Pos()),
+			R.Unproven(pfx+"equiv", construct, "pair", c.P.Pos(ff.Decl.Pos()),
 				fmt.Sprintf("not shown equivalent to %s.%s: differs in AST normal form and in path summaries (the fork no longer is a validated translation of the reference here)", rp.PkgPath, rname), facts...)
 		}
 	}
@@ -176,10 +180,13 @@ func runC06(c *Ctx) {
 		}
 	}
 	sort.Strings(extra)
-	R.Decide(len(extra) == 0, "api-surface", "lists", "no-unvalidated-functions", "",
+	R.Decide(len(extra) == 0, pfx+"api-surface", "lists", "no-unvalidated-functions", "",
 		"every function on List/Element/Ring has a validated reference counterpart",
 		"functions on the forked types without a reference to validate against: "+strings.Join(extra, ", "))
-	R.Decide(pairs >= 32, "api-surface", "lists", "reference-size", "", fmt.Sprintf("%d reference functions paired", pairs), fmt.Sprintf("only %d reference functions found (expected 32)", pairs))
+	R.Decide(pairs >= minPairs, pfx+"api-surface", "lists", "reference-size", "", fmt.Sprintf("%d reference functions paired", pairs), fmt.Sprintf("only %d reference functions found (expected %d)", pairs, minPairs))
+	if pfx != "" {
+		return
+	}
 	R.Extra["programs"] = pairs
 	R.Extra["disagreements_checked"] = pairs - layer1
 	R.Extra["equal_at_layer1"] = layer1
